@@ -8,6 +8,8 @@ NOTE = ("Trusted: z3 5.1 / cvc5 1.0.3 verdicts; the pyvc executor's encoding of 
         "bs4/lxml/cssutils; floats under the standard error model (binary64, round-to-nearest, no overflow); "
         "the bounded parts are run-time contract evaluation, never counted as proof. See evidence/<id>.json.")
 CLAIMED = {
+ "C11": ("ground evaluation of the style mappings + contract-based deductive verification with loop invariants (span balance of the DFXP writers, alternation pass of the SCC reader) + bounded round trips through the real parsers",
+         "P-ground: style dict <-> SAMI CSS / DFXP attributes / WebVTT tags for every flag subset; P (every node sequence): DFXP span markup balanced, SCC italics alternate after the redundancy pass; B: exhaustive instruction-node sequences through _format_italics (balanced, same italic text), flat spans through DFXP/SAMI/WebVTT round trips (same marked characters, balanced markup and style nodes)", "3 C11"),
  "C04": ("contract-based deductive verification of the WebVTT entity-decoding order on structured strings + bounded run-time contracts with independent serialisers",
          "P: WebVTT _decode decodes each reference between arbitrary safe text exactly once (ampersand last); B: exhaustive short cue texts against the cue-text rules, and documents of the five formats generated from an abstract model (entity spellings, style tags, voice tags, line-break markup, wrapped source lines) read back to the authored lines (one known finding: line break next to an inline element)", "3 C04"),
  "C07": ("contract-based deductive verification of the hand-written span markup (loop invariant, abstract markup counter) + bounded run-time contracts with a strict XML parser and reference-resolution checks",
